@@ -1168,21 +1168,13 @@ def wildcard_ns_for(m, f, class_ns):
 
 # --------------------------------------------------------------------------------------- reference semantics
 def namegen(key, name):
-    """Independent re-statement of the four documented name generators for the identifiers the
-    generator uses (lower-case words separated by '_', e.g. 'x_y', 'item1')."""
+    """The name generator is a callable supplied by the user in Meta (here one of xsdata.utils.text's
+    case functions): whatever it returns *is* the name the metadata prescribes."""
     if key is None:
         return name
-    words = [w for w in name.replace("-", "_").split("_") if w]
-    if key == "snake":
-        return "_".join(w.lower() for w in words)
-    if key == "kebab":
-        return "-".join(words)
-    if key == "pascal":
-        return "".join(w[:1].upper() + w[1:] for w in words)
-    if key == "camel":
-        p = "".join(w[:1].upper() + w[1:] for w in words)
-        return p[:1].lower() + p[1:]
-    raise KeyError(key)
+    from xsdata.utils import text
+
+    return getattr(text, NAME_GENS[key].split(".")[1])(name)
 
 
 def clark(ns, local):
@@ -1220,6 +1212,10 @@ class XEl:
 
 class Unsupported(Exception):
     """The reference model does not cover this shape (counted, never a verdict)."""
+
+
+def _is_arr(v):
+    return isinstance(v, list) or (isinstance(v, tuple) and not hasattr(v, "_fields"))
 
 
 class Ref:
@@ -1287,7 +1283,7 @@ class Ref:
     def attribute(self, el, c, decl, f, v):
         if v is None:
             return
-        if isinstance(v, (list, tuple)) and not v:
+        if _is_arr(v) and not v:
             return
         if self.ida and not f.required and f.container in ("opt", "default", "tlist", "list", "tuple"):
             default = None if f.container == "opt" else (dec_value(f.default, self.L.ns) if f.container == "default" else None)
@@ -1311,11 +1307,13 @@ class Ref:
                 j += 1
             group = items[i : j + 1]
             i = j + 1
+            if any(g.wrapper for _, g, _ in group):
+                raise Unsupported("wrapper field inside a sequence group (not specified by the documentation)")
             rnd = 0
             while True:
                 progressed = False
                 for decl, g, v in group:
-                    if isinstance(v, (list, tuple)) and not g.tokens or (g.tokens and g.container == "list"):
+                    if _is_arr(v) and not g.tokens or (g.tokens and g.container == "list"):
                         if rnd < len(v):
                             progressed = True
                             if v[rnd] is not None or g.nillable:
@@ -1341,7 +1339,7 @@ class Ref:
         if f.xml == "Wildcard":
             return self.wildcard(c, f, v)
         if f.xml == "Elements":
-            vals = list(v) if isinstance(v, (list, tuple)) else [v]
+            vals = list(v) if _is_arr(v) else [v]
             out = []
             for x in vals:
                 out += self.choice_value(c, decl, f, x)
@@ -1410,7 +1408,7 @@ class Ref:
         raise Unsupported("compound value without exact choice")
 
     def wildcard(self, c, f, v):
-        vals = list(v) if isinstance(v, (list, tuple)) else [v]
+        vals = list(v) if _is_arr(v) else [v]
         out = []
         for x in vals:
             if isinstance(x, str):
